@@ -455,3 +455,134 @@ Example ex_did_empty_list_not_stable :
   | _ => False
   end.
 Proof. vm_compute. eexists. split; [reflexivity|discriminate]. Qed.
+
+(* ==================================================================== *)
+(* The hand-written codecs one by one, decoding into a non-zero receiver, purity         *)
+From GSP Require Import Codec.State Codec.StateTheory.
+
+Section Codecs.
+  Variable O : oracles.
+  Hypothesis renum_idem : forall n n', o_renum O n = Some n' -> o_renum O n' = Some n'.
+  Hypothesis mtp_idem : forall j p, o_mtp O j = Some p -> p <> JNull /\ o_mtp O p = Some p.
+  Hypothesis mtp_gist : forall j pm t, o_mtp O j = Some (JObj pm) ->
+    o_mtp O (JObj (mins "type" (JStr t) (msort pm))) = Some (JObj pm) /\
+    (forall a, In a (keys pm) -> fold_eqb a "type" = false).
+  Hypothesis mtp_normal : forall j p, o_mtp O j = Some p -> norm (o_renum O) p = Some p.
+
+  (* GistInfoProof: UnmarshalJSON (decodeMTP on the whole object + the type member) after
+     MarshalJSON (proof members, whatever they are called by merkletree.Proof, + type) *)
+  Theorem gist_roundtrip j v e :
+    dec_gist O j = Ok v -> enc_gist v = Ok e -> dec_gist O e = Ok v.
+  Proof.
+    intros Hd He.
+    apply (custom_rt0 O mtp_idem mtp_gist CuPtrGistInfoProof v e); [right; exists j; exact Hd|discriminate|exact He].
+  Qed.
+
+  (* one proof of the proof list, known or unknown type, through extractProof *)
+  Theorem proof_roundtrip j p e :
+    extract_proof O repo_env j = Ok p -> enc_proof repo_env p = Ok e -> extract_proof O repo_env e = Ok p.
+  Proof.
+    intros Hd He. apply (proof_rt O repo_env renum_idem (known_rt O renum_idem mtp_idem mtp_normal) p e); eauto.
+  Qed.
+
+  (* one authentication / assertionMethod entry *)
+  Theorem auth_roundtrip j a e :
+    dec_auth O repo_env j = Ok a ->
+    match a with VAuthMethod vals => canon0 (KStruct (pe_cvm repo_env)) (VStruct vals) | _ => True end ->
+    enc_auth repo_env a = Ok e -> dec_auth O repo_env e = Ok a.
+  Proof.
+    intros Hd Hc He.
+    apply (auth_rt O repo_env renum_idem time_roundtrip mtp_idem mtp_gist cvm_rt_side a e); eauto.
+  Qed.
+End Codecs.
+
+Theorem auth_embedded_vs_reference (O : oracles) j a e :
+  dec_auth O repo_env j = Ok a -> enc_auth repo_env a = Ok e ->
+  match j with
+  | JObj _ => (exists vals, a = VAuthMethod vals) /\ exists m, e = JObj m
+  | JStr s => if String.eqb s "" then a = VAuthMethod (zeros (pe_cvm repo_env)) else a = VAuthDid s /\ e = JStr s
+  | _ => False
+  end.
+Proof.
+  intros Hd He. pose proof (dec_auth_kind O repo_env j a Hd) as Hk. pose proof (enc_auth_kind repo_env a e He) as Hk'.
+  destruct j; try exact Hk.
+  - destruct (String.eqb s ""); [exact Hk|]. subst a. split; [reflexivity|exact Hk'].
+  - destruct Hk as (vals & ->). split; [eauto|exact Hk'].
+Qed.
+
+(* ---- seeded variants, refuted by concrete witnesses ---- *)
+Definition ex_prev_ref : option auth_state := Some (zeros (pe_cvm repo_env), "did:example:someone-else#key-1").
+Definition ex_method : json := JObj [("id", JStr "did:example:123#key-1"); ("controller", JStr "did:example:123")].
+
+(* C14-c / C14-q: the object branch of Authentication.UnmarshalJSON does not reset did *)
+Example decode_keeps_did_refuted :
+  exists prev j, j <> JStr "" /\
+    res_map auth_view (dec_auth_into_keeps_did ex_oracles2 repo_env prev j) <> dec_auth ex_oracles2 repo_env j.
+Proof. exists ex_prev_ref, ex_method. split; [discriminate|]. vm_compute. discriminate. Qed.
+
+(* C14-m: the decoded method is never stored *)
+Example decode_drops_method_refuted :
+  exists prev j, j <> JStr "" /\
+    res_map auth_view (dec_auth_into_drops_method ex_oracles2 repo_env prev j) <> dec_auth ex_oracles2 repo_env j.
+Proof. exists None, ex_method. split; [discriminate|]. vm_compute. discriminate. Qed.
+
+(* C14-f: MarshalJSON prints an embedded method without type as a reference to its id *)
+Definition enc_auth_untyped_as_reference (v : gval) : res json :=
+  match v with
+  | VAuthMethod (VStr id :: VStr "" :: _) => if String.eqb id "" then enc_auth repo_env v else Ok (JStr id)
+  | _ => enc_auth repo_env v
+  end.
+Example auth_untyped_as_reference_refuted :
+  exists j a e, dec_auth ex_oracles2 repo_env j = Ok a /\ enc_auth_untyped_as_reference a = Ok e /\
+                dec_auth ex_oracles2 repo_env e <> Ok a.
+Proof. exists ex_method. eexists. eexists. split; [vm_compute; reflexivity|]. split; [vm_compute; reflexivity|]. vm_compute. discriminate. Qed.
+
+(* C14-n / C14-p: GistInfoProof.MarshalJSON names the auxiliary node "nodeAux"; with a
+   merkletree.Proof codec that reads existence / siblings / node_aux the node is lost *)
+Definition ex_mtp_members : list string := ["existence"; "node_aux"; "siblings"].
+Definition ex_oracles3 : oracles :=
+  {| o_renum := fun n => Some n;
+     o_mtp := fun j => match j with
+                       | JObj m => Some (JObj (msort (filter (fun kv => str_mem (fst kv) ex_mtp_members) m)))
+                       | _ => None end;
+     o_claim := fun _ => true; o_sig := fun _ => true |}.
+Definition rename_key (a b : string) (m : members) : members :=
+  map (fun kv => if String.eqb (fst kv) a then (b, snd kv) else kv) m.
+Definition enc_gist_nodeAux (v : gval) : res json :=
+  match enc_gist v with Ok (JObj m) => Ok (JObj (msort (rename_key "node_aux" "nodeAux" m))) | r => r end.
+Definition ex_gist : json :=
+  JObj [("type", JStr "Iden3SparseMerkleTreeProof"); ("existence", JBool false); ("siblings", JArr []);
+        ("node_aux", JObj [("key", JStr "1"); ("value", JStr "2")])].
+Example gist_nodeAux_refuted :
+  exists v e, dec_gist ex_oracles3 ex_gist = Ok v /\ enc_gist_nodeAux v = Ok e /\ dec_gist ex_oracles3 e <> Ok v.
+Proof. eexists. eexists. split; [vm_compute; reflexivity|]. split; [vm_compute; reflexivity|]. vm_compute. discriminate. Qed.
+(* while the modelled encoder keeps it on the same input *)
+Example gist_node_aux_kept :
+  match dec_gist ex_oracles3 ex_gist with
+  | Ok v => match enc_gist v with Ok e => dec_gist ex_oracles3 e = Ok v | _ => False end
+  | _ => False end.
+Proof. vm_compute. reflexivity. Qed.
+
+(* C14-o / C14-d: the proofs are detached while Merklize / verifyCredentialCoreClaim work
+   and put back on the success path only: a failing JSON-LD step loses them *)
+Example merklize_detach_refuted :
+  match cred_decode ex_oracles2 ex_cred2 with
+  | Ok c => fst (merklize_st_detach ex_oracles2 repo_env merklize_deleted d_W3CCredential unit
+                   (fun _ => Err "network is down") c) <> c
+  | _ => False
+  end.
+Proof. vm_compute. discriminate. Qed.
+Example verifyclaim_detach_refuted :
+  match cred_decode ex_oracles2 ex_cred2 with
+  | Ok c => fst (verifyclaim_st_detach ex_oracles2 repo_env merklize_deleted d_W3CCredential unit unit
+                   (fun _ => Err "network is down") (fun _ _ => Ok tt) (fun _ => Ok tt) c) <> c
+  | _ => False
+  end.
+Proof. vm_compute. discriminate. Qed.
+(* and they agree with the modelled functions when every step succeeds *)
+Example merklize_detach_same_on_success :
+  match cred_decode ex_oracles2 ex_cred2 with
+  | Ok c => fst (merklize_st_detach ex_oracles2 repo_env merklize_deleted d_W3CCredential unit (fun _ => Ok tt) c) = c
+  | _ => False
+  end.
+Proof. vm_compute. reflexivity. Qed.
